@@ -82,6 +82,26 @@ def _alarm(signum, frame):
     raise CaseTimeout()
 
 
+class inner_deadline:
+    """a shorter time limit for one step inside a case that already runs under call_with_timeout (the outer limit is restored)"""
+    def __init__(self, seconds):
+        self.seconds = seconds
+
+    def __enter__(self):
+        self.t0 = time.time()
+        self.outer = signal.getitimer(signal.ITIMER_REAL)[0]
+        signal.signal(signal.SIGALRM, _alarm)
+        signal.setitimer(signal.ITIMER_REAL, self.seconds if not self.outer else min(self.seconds, self.outer))
+        return self
+
+    def __exit__(self, *exc):
+        left = 0
+        if self.outer:
+            left = max(0.01, self.outer - (time.time() - self.t0))
+        signal.setitimer(signal.ITIMER_REAL, left)
+        return False
+
+
 def call_with_timeout(fn, arg, seconds):
     signal.signal(signal.SIGALRM, _alarm)
     signal.setitimer(signal.ITIMER_REAL, seconds)
